@@ -61,6 +61,7 @@ type Cfg struct {
 	EnvDumpTo         string `json:"envDumpTo"`
 	ImpostorOf        string `json:"impostorOf"` // netrpc | grpc
 	Plaintext         bool   `json:"plaintext"`
+	ImpChain          string `json:"impChain"`          // "" | ipsan | localhost: serve own leaf with the announced certificate appended
 	ImpSaveTo         string `json:"impSaveTo"`         // impostor: write the served certificate and key here
 	ImpServeFrom      string `json:"impServeFrom"`      // impostor: serve with the certificate and key saved there (by an earlier launch)
 	ImpAnnounceServed bool   `json:"impAnnounceServed"` // announce the certificate actually served (a well-behaved plugin)
